@@ -41,7 +41,7 @@ ASSUMPTIONS = [
 ]
 BOUNDS = {
     "quick": "instances: 2x2 (10/20/15/10), flexible 2-job (2+1 ops), 3 single-op jobs with zero duration; <= 3 recorders; BFS depth 6, recorder kinds in pairs",
-    "thorough": "same + flexible 3x2 probe; BFS depth 8 (all three kinds) and 9 (pairs of kinds)",
+    "thorough": "same + flexible 3x2 probe; BFS depth 7 (all three kinds) and 8 (pairs of kinds)",
 }
 
 INSTANCES = [
@@ -60,9 +60,9 @@ def cases(tier, seed):
             for i in range(3)
             for kinds in (("R", "S"), ("B", "S"), ("R", "B"))
         ]
-    out = [("protocol", INSTANCES[i], 8, ("R", "B", "S")) for i in range(4)]
+    out = [("protocol", INSTANCES[i], 7, ("R", "B", "S")) for i in range(4)]
     out += [
-        ("protocol", INSTANCES[i], 9, kinds)
+        ("protocol", INSTANCES[i], 8, kinds)
         for i in range(4)
         for kinds in (("R", "S"), ("B", "S"), ("R", "B"))
     ]
